@@ -113,9 +113,10 @@ def build_dir(flavour):
     return d
 
 
-def prune(keep=4, min_age_s=3 * 3600):
+def prune(keep=3, min_age_s=3600):
     """Remove build directories of tree hashes that have not been used for a while (never one that may be in use by a
-    concurrently running check: only directories untouched for `min_age_s`, and the `keep` newest always stay)."""
+    concurrently running check: only directories untouched for `min_age_s` - a check touches its directory when it starts
+    and the longest thorough check takes about a quarter of an hour - and the `keep` newest always stay)."""
     if not os.path.isdir(BUILD):
         return
     cur = tree_hash()
